@@ -160,3 +160,7 @@ pub trait ServerSocket {
         to: Self::Addr,
     ) -> impl Future<Output = Result<(), Self::Error>>;
 }
+
+#[cfg(all(test, pendulum_project_ntpd_rs_verif))]
+#[path = "/verif/harness/statime_csptp/probe_server.rs"]
+pub(crate) mod verif_probe;
